@@ -38,7 +38,7 @@ ASSUMPTIONS = [
     "Harsch2021 is evaluated only for |B_Gamma| >= 1e-3 (its energy is not differentiable at B_Gamma = 0); Simo1986 also at zero vectors",
     "stiffness vectors strictly positive, 1e-3..1e6; strains 1e-3..1e3; |B_Gamma0| in [1e-3, 1e3] incl. exactly 1",
 ]
-REQUIRED_MONITORS = ["grad.B_n", "grad.B_m", "tangent.B_n_B_Gamma", "tangent.B_n_B_Kappa", "tangent.B_m_B_Gamma",
+REQUIRED_MONITORS = ["purity", "grad.B_n", "grad.B_m", "tangent.B_n_B_Gamma", "tangent.B_n_B_Kappa", "tangent.B_m_B_Gamma",
                      "tangent.B_m_B_Kappa", "tangent.symmetry", "legendre.equality", "legendre.fenchel_young",
                      "legendre.grad_complementary", "legendre.compliance_inverse", "contract"]
 CASE_TIMEOUT = 120
@@ -470,6 +470,20 @@ def run_case(spec, ctx):
             ctx.cls(rc)
         sig.append([a.tolist() for a in (Ei, Fi, G, G0, K, K0)])
         check_sample(ctx, judge, law, Ei, Fi, G, G0, K, K0, ctor=ctor)
+        if len(sig) % 4 == 1:
+            # the law object answers the same question the same way whatever was asked before and whatever the caller did with
+            # the arrays it was handed (a rod routine scaling a returned tangent in place: m_K *= J * w)
+            from cardillo.rods import _material_models as mm
+            from vlib.oracles import purity_check
+            obj = getattr(mm, law)(Ei.copy(), Fi.copy())
+            names = [n_ for n_ in ("potential", "B_n", "B_m", "B_n_B_Gamma", "B_n_B_Kappa", "B_m_B_Gamma", "B_m_B_Kappa") if hasattr(obj, n_)]
+            thunks = [(f"{law}.{n_}", {"function": n_, "B_Gamma": G, "B_Gamma0": G0, "B_Kappa": K, "B_Kappa0": K0},
+                       (lambda f=getattr(obj, n_): f(G.copy(), G0.copy(), K.copy(), K0.copy()))) for n_ in names]
+            if hasattr(obj, "complementary_potential"):
+                n0, m0 = np.array(obj.B_n(G, G0, K, K0), dtype=float), np.array(obj.B_m(G, G0, K, K0), dtype=float)
+                thunks.append((f"{law}.complementary_potential", {"function": "complementary_potential", "B_n": n0, "B_m": m0},
+                               (lambda: obj.complementary_potential(n0.copy(), m0.copy()))))
+            purity_check(ctx, rng, thunks, mon="purity", scribble=True)
     ctx.sig([law, sig], nontrivial=strained and judge.decided > 0)
     ctx.sample({"law": law, "regime": spec.get("regime", "directed"), "batch": len(sig),
                 "first": dict(zip(("Ei", "Fi", "B_Gamma", "B_Gamma0", "B_Kappa", "B_Kappa0"), sig[0]))})
